@@ -123,18 +123,24 @@ def run_configs(draw, tree_data, k=3):
 def cases(draw, max_levels=4, max_leaves=10, max_genes=36, n_configs=3):
     tree = draw(gen.trees(max_levels=max_levels, max_leaves=max_leaves, min_levels=1, allow_odd=True, mappers=False))
     t = treemodel.Tree(tree)
-    if len(t.leaves()) < 2:
-        # a one-leaf taxonomy has no pair at all (the reference-marker stage cannot produce a table for it)
-        lv = tree['hierarchy'][-1]
-        only = t.leaves()[0]
-        extra = only + 'b'
-        tree[lv][extra] = []
+    # gen.trees favours few leaves; attach up to max_leaves - n extra leaves (at least one to a one-leaf taxonomy, which
+    # has no pair at all and for which the reference-marker stage cannot produce a table) below drawn bottom-level parents
+    n_have = len(t.leaves())
+    room = max(0, max_leaves - n_have)
+    n_extra = draw(st.integers(1 if n_have < 2 else 0, max(room, 1 if n_have < 2 else 0)))
+    lv = tree['hierarchy'][-1]
+    base_names = list(tree[lv].keys())
+    for i in range(n_extra):
+        nm = ('A' if draw(st.booleans()) else '') + draw(st.sampled_from(base_names)) + f'x{i}'
+        tree[lv][nm] = []
         if len(tree['hierarchy']) > 1:
-            par = t.parent(lv, only)
-            tree[par[0]][par[1]].append(extra)
+            pl = tree['hierarchy'][-2]
+            tree[pl][draw(st.sampled_from(list(tree[pl].keys())))].append(nm)
     n_pairs = len(pair_list(tree))
     n = draw(st.integers(1, 6))
-    n_genes = draw(st.integers(max(3, n), max_genes))
+    # mostly enough genes for a pair to hold more than 2n markers; sometimes fewer genes than 2n (nothing can be "rich")
+    lo_genes = min(max_genes, 2 * n + 2) if draw(st.sampled_from([True, True, True, False])) else max(3, n)
+    n_genes = draw(st.integers(lo_genes, max_genes))
     genes = [f'g{i}' for i in draw(st.permutations(list(range(n_genes))))]
     tensor = draw(tensors(n_pairs, n_genes, n))
     # query: a subset of the reference genes (>=1, by construction) plus genes the reference does not know
@@ -146,12 +152,12 @@ def cases(draw, max_levels=4, max_leaves=10, max_genes=36, n_configs=3):
     query = list(draw(st.permutations(keep + unknown)))
     parents = parents_of(tree)
     override = {}
-    if draw(st.integers(0, 2)) > 0:
+    if draw(st.sampled_from([True, True, False])):
         for p in parents:
-            if draw(st.integers(0, 3)) == 0:
+            if draw(st.sampled_from([True, False, False])):
                 override[parent_key(p)] = draw(st.integers(1, 6))
     parent_list = None
-    if draw(st.integers(0, 3)) == 0:
+    if draw(st.sampled_from([False, False, False, True])):
         sub = [p for p in parents if draw(st.booleans())] or [parents[0]]
         parent_list = [None if p is None else list(p) for p in draw(st.permutations(sub))]
     return {
